@@ -204,9 +204,13 @@ def run_job(modname, spec, tmpdir):
     budget = float(spec.get('budget', 300))
     t0 = time.time()
     rc, out, err, timed_out = _run_proc([PY, '-m', 'sx.run', 'worker', modname, sp + '.spec', sp + '.out'], budget + 15)
+    res = None
     if os.path.exists(sp + '.out'):
-        res = json.load(open(sp + '.out'))
-    else:
+        try:
+            res = json.load(open(sp + '.out'))
+        except ValueError:      # truncated: the worker was killed while writing (VERIF_FAST_FAIL stop)
+            res = None
+    if res is None:
         res = dict(job=spec.get('name'), status='timeout' if timed_out else 'crash', obligations=0, discharged=0,
                    inconclusive=[], n_inconclusive=0, candidates=[], samples=[], paths=0, exc_paths=0, queries=0,
                    solver_s=0.0, vacuity={}, validated=0, notes=[], errors=[(err or '')[-2000:]], functions=[],
